@@ -24,7 +24,10 @@ REQUIRED_THEOREMS = [
     "euler_amp", "rk4_amp", "implicit_iterates", "cn_iterates", "ab2_recursion", "ab2_first_step",
     "rk4_quadrature", "rkf45_rowsum", "rkf45_order4", "rkf45_order5", "rkf45_error_is_difference",
     "rkf45_amp4", "fixedStepper_steps", "fixedStepper_is_iterate",
-    "adaptive_ends_at_or_after_tend", "adaptive_overshoot_lt_dtmin", "adaptive_exact_end",
+    "adaptive_ends_at_or_after_tend", "adaptive_overshoot_lt_dtmin", "adaptive_exact_end_partial",
+    "adaptive_end_exact_or_floor", "eulerAdaptive_carried_rate_taken_at_old_time",
+    "implicitStep_converged_close", "implicitStep_converged_distance", "cnStep_converged_close",
+    "implicitStep_terminates", "cnStep_terminates",
     "global_error_le_sum_local", "euler_local_error_le_estimate",
     "implicitStep_cells", "cnStep_cells", "rkf45_amp5", "rkf45_quadrature", "adaptive_euler_global_error",
     "adaptive_euler_model_global_error", "adaptive_richardson_model_global_error", "ab2Stepper_persistent",
@@ -46,16 +49,21 @@ RULE = ("linear test equations u' = a u + b0 + b1 t + b2 t^2 + b3 t^3 (real and 
         "(evolution_rate + make_evolution_rate) or PDE({...}); solver x backend (numpy, numba source, "
         "numba JIT subset) x stepping (fixed: seed-derived dt, 1..50 steps per call, 1-3 consecutive "
         "calls, start times, rounding ties of the step count; adaptive: tolerance, initial dt, calls; "
-        "scipy) through the stepper or eq.solve; a case is distinct by all of these and non-trivial if "
-        "the state is not identically zero and the rate is not identically zero")
+        "scipy) through the stepper or eq.solve; a fixed corpus (inputs of the recorded findings, adaptive calls of "
+        "2-3 accepted steps on u'=g(t)) in all three modes; a malformed stream (dt = 0: an exception is expected); "
+        "a case is distinct by all of these and non-trivial if the state is not identically zero and the rate is "
+        "not identically zero")
 ASSUMPTIONS = [
     "rates are total functions (the exception/NaN retry branches of the adaptive loops are modelled only "
     "through the isNan oracle of adjust_dt and are not exercised)",
     "fixed-step results are compared with exact rational arithmetic at 1e-12 of the natural scale; "
-    "adaptive runs are compared with the Float instantiation at 1e-9 (the rate function and pow are "
-    "not evaluated in the same operation order as numpy/LLVM)",
-    "global error bound: proved for adaptive Euler on real a <= 0 (exact arithmetic); for RKF45 and complex a "
-    "the local-error hypothesis is explicit in the theorem and the bound is monitored on every run",
+    "adaptive runs are compared with the Float instantiation at max(1e-9, 1e-14/tolerance) relative, not bit-exactly "
+    "(the rate function and pow are not evaluated in the same operation order as numpy/LLVM)",
+    "global error bound: proved for adaptive Euler / step doubling on real a <= 0 (exact arithmetic); for RKF45 the "
+    "literal bound is false (known finding, proved with the 5th-order remainders); for complex a with Re a <= 0 the "
+    "literal bound is false for the step-doubling estimate as well (finding, no theorem): every run is monitored, an "
+    "excess is keyed only within the explicit next-order remainders of the accepted steps",
+    "adaptive runs with complex a have no model (monitors only)",
     "scipy solver: external integrator, only end time / untouched initial state / accuracy / backend agreement",
     "post-step hooks, MPI synchronisation and stochastic terms are outside the property",
 ]
@@ -74,6 +82,28 @@ DT_MIN = 1e-10
 # =============================================================================================
 # E1: regenerate Generated/Tableau.lean; classification of build failures
 # =============================================================================================
+def _pristine_repo():
+    return os.path.realpath(paths.REPO) == "/repo"
+
+
+def _private_lean_tree(ctx, text):
+    """A run against another tree than /repo (seeded-change trials, mutation experiments) must not touch
+    the shared lean/ directory: the package is copied into the run's work directory (sources and
+    the compiled modules, so that only Generated -> Model -> Props/Drv are rebuilt), the extracted
+    constants are written there, and the Lean side of this run (build, audit, model driver) is
+    pointed to the copy.  `harness.common.lean` reads `paths.LEAN` at call time."""
+    import shutil
+
+    global GEN_FILE, PROPS_FILE
+    dst = os.path.join(ctx.workdir, "lean_private")
+    shutil.copytree(paths.LEAN, dst, symlinks=True)
+    paths.LEAN = dst
+    GEN_FILE = os.path.join(dst, "PdeVerif", "Generated", "Tableau.lean")
+    PROPS_FILE = os.path.join(dst, "PdeVerif", "Props", "C06.lean")
+    with open(GEN_FILE, "w") as fh:
+        fh.write(text)
+
+
 def regenerate(ctx):
     from harness.common import e1_tableau
 
@@ -86,14 +116,18 @@ def regenerate(ctx):
         ctx.extra["e1"] = f"extraction failed: {e}"
         return [{"obligation": "E1 extraction of the stepper constants", "log": str(e)}]
     old = open(GEN_FILE).read() if os.path.exists(GEN_FILE) else None
-    if old != text:
-        tmp = GEN_FILE + ".tmp"
+    if old == text:
+        ctx.extra["e1"] = "Generated/Tableau.lean unchanged"
+    elif _pristine_repo():
+        tmp = GEN_FILE + f".{os.getpid()}.tmp"
         with open(tmp, "w") as fh:
             fh.write(text)
         os.replace(tmp, GEN_FILE)
         ctx.extra["e1"] = "Generated/Tableau.lean rewritten"
     else:
-        ctx.extra["e1"] = "Generated/Tableau.lean unchanged"
+        # not the tree the committed constants describe: never write into the shared lean/ directory
+        _private_lean_tree(ctx, text)
+        ctx.extra["e1"] = "constants differ from the committed Generated/Tableau.lean: private copy of lean/ in the work directory"
     ctx.extra["e1_constants"] = {k: str(v) for k, v in consts.items()}
     return []
 
@@ -248,10 +282,16 @@ CASE_CPU_LIMIT = {"numpy": 30.0, "nojit": 30.0, "jit": 150.0}
 CASE_HARD_CPU_LIMIT = 400.0     # watchdog: a worker stuck inside compiled code is terminated
 
 
+class CaseTimeout(BaseException):
+    """Raised by the CPU-time limit.  Not an `Exception`: the adaptive Euler loops wrap their rate
+    evaluations in `except Exception` and would otherwise swallow the limit and carry on."""
+
+
 class _Deadline:
     """CPU-time limit for one execution of the real code.  A run that does not come back (e.g. a
     controller loop that never reaches t_end after a stepper returned a wrong time) is reported as a
-    TimeoutError of that case instead of stalling the check."""
+    TimeoutError of that case instead of stalling the check.  The timer repeats (every 10 CPU seconds
+    after the limit) in case the first signal is lost in code that catches everything."""
 
     def __init__(self, soft, hard=CASE_HARD_CPU_LIMIT):
         self.soft, self.hard = soft, hard
@@ -262,12 +302,12 @@ class _Deadline:
         import time
 
         def on_alarm(_sig, _frm):
-            raise TimeoutError(f"no result within {self.soft:.0f} s of CPU time")
+            raise CaseTimeout(f"no result within {self.soft:.0f} s of CPU time")
 
         self.use_signal = threading.current_thread() is threading.main_thread()
         if self.use_signal:
             self.old = signal.signal(signal.SIGPROF, on_alarm)
-            signal.setitimer(signal.ITIMER_PROF, self.soft)
+            signal.setitimer(signal.ITIMER_PROF, self.soft, 10.0)
         self.done = threading.Event()
         start = time.process_time()
 
@@ -295,7 +335,7 @@ def exec_case(task):
     try:
         with _Deadline(CASE_CPU_LIMIT.get(task["mode"], 150.0)):
             return _exec_case(task)
-    except TimeoutError as e:
+    except CaseTimeout as e:
         return {"mode": task["mode"], "segments": [], "error": {"type": "TimeoutError", "msg": str(e), "segment": 0},
                 "calls": None, "initial_untouched": None}
 
@@ -678,7 +718,7 @@ def parse_fixed_calls(case, segments, seg_steps, calls, ncalls):
             exp = ([ts] if first else []) + [x for i in range(n) for x in (lat[i] - dt, lat[i])]
         else:
             g = group_times(times, tol)
-            if len(g) != n + 1 or any(abs(gt - lt) > tol for (gt, _), lt in zip(g, lat)):
+            if len(g) != n + 1 or any(not abs(gt - lt) <= tol for (gt, _), lt in zip(g, lat)):
                 return (f"rate evaluated at times {[x[0] for x in g][:6]}.. instead of the lattice "
                         f"{lat[:6]}.. of a {solver} step"), None
             extra = 0 if solver == "implicit" else 1   # CN: one evaluation at t+dt before the loop
@@ -693,7 +733,7 @@ def parse_fixed_calls(case, segments, seg_steps, calls, ncalls):
         if len(times) != len(exp):
             return f"{len(times)} rate evaluations instead of {len(exp)} in a call of {n} steps", None
         for i, (x, y) in enumerate(zip(times, exp)):
-            if abs(x - y) > tol:
+            if not abs(x - y) <= tol:
                 return (f"rate evaluation {i} of the call at time {x!r}, the scheme evaluates at {y!r} "
                         f"(t_start={ts!r}, dt={dt!r})"), None
     return None, iters
@@ -812,7 +852,7 @@ def compare_fixed(ctx, case, mode, run, msegs, merr, leg, float_counts=None):
         if m["steps"] != rsteps[j]:
             ctx.disagree(leg, rec, {"call": j, "steps": m["steps"]}, {"call": j, "steps": rsteps[j]}, "step count")
             return False
-        if abs(m["t"] - r["t"]) > 1e-12 * max(1.0, abs(m["t"])):
+        if not abs(m["t"] - r["t"]) <= 1e-12 * max(1.0, abs(m["t"])):
             ctx.disagree(leg, rec, {"call": j, "t": m["t"]}, {"call": j, "t": r["t"]}, "returned time")
             return False
         dev = max(abs(complex(*x) - complex(*y)) for x, y in zip(m["state"], r["state"]))
@@ -862,7 +902,7 @@ def monitor_fixed(ctx, case, mode, run, aux_runs, leg="monitor"):
                 fail({"call": j, "steps": n}, {"steps": np_},
                      f"{case['solver']}: number of steps != max(1, round((t_end-t_start)/dt))")
                 return fails
-            if abs(run["segments"][j]["t"] - tp) > 1e-12 * max(1.0, abs(tp)):
+            if not abs(run["segments"][j]["t"] - tp) <= 1e-12 * max(1.0, abs(tp)):
                 fail({"call": j, "t": run["segments"][j]["t"]}, {"t": tp},
                      f"{case['solver']}: returned time != t_start + steps*dt")
                 return fails
@@ -904,11 +944,13 @@ def monitor_fixed(ctx, case, mode, run, aux_runs, leg="monitor"):
             nsteps = sum(ss) if c["via"] == "solve" else sum(ss[: j + 1])
             tol = 1e-12 * scale * (1 + nsteps / 16)
             if c["flavour"] == "amp" and c["solver"] in ("implicit", "crank-nicolson") and its is None:
-                # iteration counts unknown (compiled run): converged value within the stopping criterion
+                # iteration counts unknown (compiled run): converged value within the stopping criterion,
+                # |y - fix| <= |q|/|1-q| sqrt(N) maxerror per step (Props/C06.lean implicitStep_converged_distance,
+                # cnStep_converged_close: no contraction hypothesis), propagated with the exact amplification
                 a = complex(*c["a"])
                 z = a * c["dt"]
                 qq = z if c["solver"] == "implicit" else c["alpha"] + (1 - c["alpha"]) * z / 2
-                if abs(qq) >= 0.95:
+                if abs(1 - qq) < 1e-9 or abs(1 - z) < 1e-9 or abs(1 - z / 2) < 1e-9:
                     continue
                 growth = max(1.0, abs(1 / (1 - z)) if c["solver"] == "implicit" else abs((1 + z / 2) / (1 - z / 2)))
                 tol += (abs(qq) / abs(1 - qq)) * c["maxerror"] * math.sqrt(len(c["u0"])) * nsteps \
@@ -963,7 +1005,7 @@ def monitor_agreement(ctx, case, runs, leg="monitor"):
             bad = None
             if x["steps"] != y["steps"] and case["kind"] == "fixed":
                 bad = f"steps {y['steps']} vs {x['steps']}"
-            elif abs(x["t"] - y["t"]) > 1e-12 * max(1.0, abs(x["t"])) + (DT_MIN * 1.000001 if case["kind"] == "adaptive" else 0):
+            elif not abs(x["t"] - y["t"]) <= 1e-12 * max(1.0, abs(x["t"])) + (DT_MIN * 1.000001 if case["kind"] == "adaptive" else 0):
                 bad = f"time {y['t']!r} vs {x['t']!r}"
             elif not dev <= tol:
                 bad = f"state deviates by {dev:.3e} (tolerance {tol:.3e})"
@@ -979,21 +1021,29 @@ def monitor_agreement(ctx, case, runs, leg="monitor"):
 RKF_A = [0.0, 1 / 4, 3 / 8, 12 / 13, 1.0, 1 / 2]
 
 
-def parse_adaptive_calls(case, run):
+def parse_adaptive_calls(case, run, info=None):
     """reconstruct [(t, dt, accepted)] per call from the recorded rate-evaluation times;
-    returns (problem or None, list per call of lists)"""
+    returns (problem or None, list per call of lists).  `info` (a dict) receives, for adaptive Euler,
+    `rate_times`: per call the list of (t, dt, time of the rate evaluation of the accepted state).
+    Adaptive Euler: an iteration evaluates the rate at the midpoint t + dt/2; an accepted iteration is
+    followed by the evaluation of the rate of the accepted state (which the next step reuses), a rejected
+    one directly by the next midpoint t + dt'/2 with dt' in [0.1 dt, 0.9 dt].  The time of the rate
+    evaluation of an accepted state is *recorded*, not presumed: the trace can be reconstructed whether
+    it is taken at t + dt (the scheme) or at t."""
     solver = case["solver"]
     calls = run["calls"]
     out, lo = [], 0
+    rate_times = []
     for (ts, te), seg in zip(case["segments"], run["segments"]):
         times = calls[lo:seg["ncalls"]]
         lo = seg["ncalls"]
         recs = []
+        rts = []
         t = ts
         i = 0
         eps = lambda h: 1e-9 * abs(h) + 1e-13 * max(1.0, abs(t))
         if solver == "euler":
-            if not times or abs(times[0] - ts) > 1e-13 * max(1.0, abs(ts)):
+            if not times or not abs(times[0] - ts) <= 1e-13 * max(1.0, abs(ts)):
                 return "first rate evaluation of the adaptive Euler call is not at t_start", None
             i = 1
             while i < len(times):
@@ -1001,13 +1051,24 @@ def parse_adaptive_calls(case, run):
                 if not h > 0:
                     return f"non-positive step reconstructed at evaluation {i}", None
                 i += 1
-                acc = i < len(times) and abs(times[i] - t) <= eps(h) and \
-                    (i + 1 == len(times) or times[i + 1] > t + 0.25 * h)
-                if acc:
+                if i == len(times):
+                    return ("the call ends with a midpoint evaluation: the rate of the last accepted state was "
+                            "not evaluated"), None
+                x = times[i]
+                if abs(x - t) <= eps(h) or abs(x - (t + h)) <= eps(h):
+                    acc = True
+                    rts.append([t, h, x])
                     i += 1
+                elif t + 0.04 * h <= x <= t + 0.46 * h:
+                    acc = False           # x is the midpoint of the next, smaller attempt
+                else:
+                    return (f"evaluation {i} at {x!r} is neither the rate of the accepted state (t+dt={t + h!r}) "
+                            f"nor the midpoint of a retry (t={t!r}, dt={h!r})"), None
                 recs.append([t, h, acc])
                 if acc:
                     t = t + h
+            if recs and not recs[-1][2]:
+                return "the call ends with a rejected iteration", None
         else:
             per = 3 if solver == "richardson" else 6
             if len(times) % per:
@@ -1023,20 +1084,23 @@ def parse_adaptive_calls(case, run):
                 if not h > 0:
                     return f"non-positive step reconstructed in block {k // per}", None
                 for c, a in zip(blk, stage):
-                    if abs(c - (blk[0] + a * h)) > eps(h):
+                    if not abs(c - (blk[0] + a * h)) <= eps(h):
                         return (f"stage evaluated at {c!r}, expected t + {a!r}*dt = {blk[0] + a * h!r} "
                                 f"(t={blk[0]!r}, dt={h!r})"), None
                 if k + per < len(times):
                     nxt = times[k + per]
-                    acc = abs(nxt - blk[0]) > 0.25 * h
+                    acc = not abs(nxt - blk[0]) <= 0.25 * h
                 else:
                     acc = True
-                if abs(blk[0] - t) > eps(h):
+                if not abs(blk[0] - t) <= eps(h):
                     return f"iteration starts at {blk[0]!r}, expected {t!r}", None
                 recs.append([blk[0], h, acc])
                 if acc:
                     t = blk[0] + h
         out.append(recs)
+        rate_times.append(rts)
+    if info is not None:
+        info["rate_times"] = rate_times
     return None, out
 
 
@@ -1058,7 +1122,7 @@ def compare_adaptive(ctx, case, mode, run, mval, leg):
         return False
     rsteps = cumulative_steps(rsegs)
     traces = None
-    if run["calls"] is not None and case["via"] == "stepper":
+    if run["calls"] is not None and (case["via"] == "stepper" or len(case["segments"]) == 1):
         bad, traces = parse_adaptive_calls(case, run)
         if bad:
             ctx.disagree(leg, rec, "model trace", bad, "recorded rate evaluations cannot be parsed")
@@ -1074,20 +1138,27 @@ def compare_adaptive(ctx, case, mode, run, mval, leg):
     for j, (m, r) in enumerate(zip(msegs, rsegs)):
         mt, mdt = unfbits(m["t"]), unfbits(m["dt_opt"])
         mstate = [unfbits(x) for x in m["state"]]
+        dev = max(abs(x - y[0]) for x, y in zip(mstate, r["state"]))
         if abs(m["steps"] - rsteps[j]) == 1 and 0 < abs(mt - r["t"]) <= DT_MIN * (1 + 1e-6):
-            # one of the two runs missed t_end by an ulp and appended a step of dt_min
+            # one of the two runs missed t_end by an ulp and appended a step of dt_min (the final time of the
+            # real run is judged by the monitor): step counts, trace and saved dt of this call cannot be
+            # compared, the state (which moved by dt_min * rate) still is
             ctx.hist("adaptive-model-vs-code", "parted by a final dt_min step")
-            return True
+            if not dev <= (rel + 1e-8) * max(scale, max(abs(x) for x in mstate)):
+                ctx.disagree(leg, rec, {"call": j, "state": mstate}, {"state": r["state"]},
+                             f"state deviates by {dev:.3e} (runs parted by a final dt_min step)")
+                return False
+            # later calls start from a different saved time step: no further comparison (None = not tied)
+            return None
         if m["steps"] != rsteps[j]:
             ctx.disagree(leg, rec, {"call": j, "steps": m["steps"]}, {"steps": rsteps[j]}, "accepted steps")
             return False
-        if abs(mt - r["t"]) > 1e-12 * max(1.0, abs(mt)):
+        if not abs(mt - r["t"]) <= 1e-12 * max(1.0, abs(mt)):
             ctx.disagree(leg, rec, {"call": j, "t": mt}, {"t": r["t"]}, "final time")
             return False
-        if abs(mdt - r["dt_opt"]) > rel * abs(mdt):
+        if not abs(mdt - r["dt_opt"]) <= rel * abs(mdt):
             ctx.disagree(leg, rec, {"call": j, "dt_opt": mdt}, {"dt_opt": r["dt_opt"]}, "saved time step")
             return False
-        dev = max(abs(x - y[0]) for x, y in zip(mstate, r["state"]))
         if not dev <= rel * max(scale, max(abs(x) for x in mstate)):
             ctx.disagree(leg, rec, {"call": j, "state": mstate}, {"state": r["state"]}, f"state deviates by {dev:.3e}")
             return False
@@ -1099,7 +1170,8 @@ def compare_adaptive(ctx, case, mode, run, mval, leg):
                              "number of loop iterations")
                 return False
             for k, (a, b) in enumerate(zip(mtr, rtr)):
-                if a[2] != b[2] or abs(a[1] - b[1]) > rel * max(abs(a[1]), span) or abs(a[0] - b[0]) > rel * max(1.0, span):
+                if a[2] != b[2] or not abs(a[1] - b[1]) <= rel * max(abs(a[1]), span) or \
+                        not abs(a[0] - b[0]) <= rel * max(1.0, span):
                     ctx.disagree(leg, rec, {"call": j, "iteration": k, "t_dt_accepted": a},
                                  {"t_dt_accepted": b}, "(t, dt, accepted) sequence")
                     return False
@@ -1109,8 +1181,8 @@ def compare_adaptive(ctx, case, mode, run, mval, leg):
     st = rsegs[-1].get("dt_stats")
     if st and acc:
         tol = rel * max(max(acc), span)
-        if int(st["count"]) != len(acc) or abs(st["min"] - min(acc)) > tol or \
-                abs(st["max"] - max(acc)) > tol or abs(st["mean"] - sum(acc) / len(acc)) > tol:
+        if int(st["count"]) != len(acc) or not abs(st["min"] - min(acc)) <= tol or \
+                not abs(st["max"] - max(acc)) <= tol or not abs(st["mean"] - sum(acc) / len(acc)) <= tol:
             ctx.disagree(leg, rec, {"accepted_dt": {"count": len(acc), "min": min(acc), "max": max(acc)}},
                          {"dt_statistics": st}, "dt statistics")
             return False
@@ -1120,23 +1192,32 @@ def compare_adaptive(ctx, case, mode, run, mval, leg):
 
 SYMPTOM_GLOBAL = "global-error-exceeds-steps-x-tolerance"
 SYMPTOM_GLOBAL_5TH = "global-error-exceeds-steps-x-tolerance-within-5th-order-remainder"
+SYMPTOM_GLOBAL_CPLX = "global-error-exceeds-steps-x-tolerance-complex-rate-within-third-order-remainder"
+SYMPTOM_STALE_RATE = "rate of accepted state taken at old time"
+SYMPTOM_OVERSHOOT = "final time beyond t_end by one extra step of dt_min"
 
 
 def accepted_dts(case, run, mval=None, model_agrees=False):
     """accepted step sizes per record of the real run: from the Float model trace of the same case
     when the correspondence leg has tied it to this run, else from the recorded rate evaluations,
-    else None"""
+    else None.  Step sizes that do not add up to the time the run covered are not used."""
+    per = None
     if mval is not None and model_agrees:
         per = [[unfbits(x[1]) for x in m["trace"] if x[3]] for m in mval["segments"]]
         if case["via"] == "solve":
-            return [[h for seg in per for h in seg]]
-        return per
-    if run.get("calls") is not None and run["error"] is None and \
+            per = [[h for seg in per for h in seg]]
+    elif run.get("calls") is not None and run["error"] is None and \
             (case["via"] == "stepper" or len(case["segments"]) == 1):
         bad, traces = parse_adaptive_calls(case, run)
         if not bad:
-            return [[x[1] for x in tr if x[2]] for tr in traces]
-    return None
+            per = [[x[1] for x in tr if x[2]] for tr in traces]
+    if per is None or run["error"] is not None or len(per) != len(run["segments"]):
+        return None
+    starts = [case["segments"][0][0]] if case["via"] == "solve" else [s[0] for s in case["segments"]]
+    for hs, ts, r in zip(per, starts, run["segments"]):
+        if not abs(sum(hs) - (r["t"] - ts)) <= 1e-9 * abs(r["t"] - ts) + 2 * DT_MIN:
+            return None
+    return per
 
 
 def fifth_order_budget(case, dts_per_call):
@@ -1160,15 +1241,76 @@ def fifth_order_budget(case, dts_per_call):
     return out
 
 
+def doubling_ratio(z):
+    """rho(z) = |exp z - (1+z/2)^2| / |z^2/4|: local error of an Euler step-doubling step on u'=a u
+    (z = a dt) relative to its own error estimate |(1+z) - (1+z/2)^2| = |z|^2/4.  rho <= 1 for real
+    z <= 0 (Props/C06.lean euler_local_error_le_estimate); for complex z with Re z <= 0 it is
+    1 + 2 Re z/3 + (Im z)^2/18 + O(|z|^3), i.e. larger than 1 when (Im z)^2 > -12 Re z."""
+    import cmath
+
+    if abs(z) < 1e-4:   # series (the quotient cancels): 1 + 2z/3 + z^2/6 + z^3/30
+        return abs(1 + 2 * z / 3 + z * z / 6 + z ** 3 / 30)
+    return abs(cmath.exp(z) - (1 + z / 2) ** 2) / (abs(z) ** 2 / 4)
+
+
+def doubling_budget(case, dts_per_call, rsegs):
+    """tol * sum over the accepted steps of max(1, rho(a dt_i)) (cumulative per record): what the
+    acceptance test |z_i|^2/4 |u| <= tol leaves for the local errors of an Euler step-doubling run on
+    u' = a u with complex a, Re a <= 0.  Without step sizes: accepted steps * tol * sup of max(1, rho)
+    over the step sizes up to the largest accepted one (dt_statistics, observable in every mode)."""
+    a = complex(*case["a"])
+    tol = case["tol"]
+    if dts_per_call is not None:
+        total, out = 0.0, []
+        for dts in dts_per_call:
+            total += sum(max(1.0, doubling_ratio(a * h)) for h in dts) * tol
+            out.append(total * (1 + 1e-9))
+        return out
+    out = []
+    for r in rsegs:
+        st = r.get("dt_stats")
+        if not st or not st["max"] > 0:
+            return None
+        hmax = st["max"] * (1 + 1e-9)
+        sup = max(max(1.0, doubling_ratio(a * hmax * k / 2000)) for k in range(1, 2001))
+        out.append(r["steps"] * tol * sup * (1 + 1e-6))
+    return out
+
+
+def _adaptive_quadrature(case, traces, stale):
+    """exact value (Fraction per cell, cumulative per call) of an adaptive Euler / step-doubling run on
+    u' = g(t) over the accepted steps (t_i, h_i) of `traces`: every accepted step adds
+    h/2 g(t) + h/2 g(t + h/2).  `stale`: the variant in which the first half of step i+1 of a call
+    uses g at the *start* of step i (rate of the accepted state evaluated before the time advanced)."""
+    b = case["b"]
+    us = [Fraction(u[0]) for u in case["u0"]]
+    out = []
+    for (ts, _te), tr in zip(case["segments"], traces):
+        inc = Fraction(0)
+        tau = Fraction(ts)
+        for t, h, acc in tr:
+            if not acc:
+                continue
+            t, h = Fraction(t), Fraction(h)
+            inc += h / 2 * (_poly(b, tau if stale else t) + _poly(b, t + h / 2))
+            tau = t
+        us = [u + inc for u in us]
+        out.append(list(us))
+    return out
+
+
 def monitor_adaptive(ctx, case, mode, run, leg="monitor", dts=None):
     fails = 0
     key = {"solver": case["solver"], "backend": "numpy" if mode == "numpy" else "numba", "stepping": "adaptive"}
     rec = {"case": case, "mode": mode}
 
-    def fail(obs, exp, what):
+    def fail(obs, exp, what, symptom=None):
         nonlocal fails
         fails += 1
-        ctx.monitor_fail(leg, rec, obs, exp, what, key=dict(key))
+        k = dict(key)
+        if symptom:
+            k["symptom"] = symptom
+        ctx.monitor_fail(leg, rec, obs, exp, what, key=k)
 
     ctx.monitor_evals += 1
     if run["error"] is not None:
@@ -1179,15 +1321,79 @@ def monitor_adaptive(ctx, case, mode, run, leg="monitor", dts=None):
     segs = case["segments"]
     rsegs = run["segments"]
     ends = [segs[-1][1]] if case["via"] == "solve" else [s[1] for s in segs]
+    # ---- "adaptive stepping ends exactly at the requested time": the literal clause -----------------
     for j, (te, r) in enumerate(zip(ends, rsegs)):
-        # ends at the requested time: never before, and beyond it by less than dt_min
         over = r["t"] - te
-        if over < 0 or over > DT_MIN * (1 + 1e-6) + 4e-16 * abs(te):
-            fail({"call": j, "t_final": r["t"], "overshoot": over}, {"t_end": te, "allowed_overshoot": DT_MIN},
+        if r["t"] == te:
+            ctx.hist("adaptive-end", "exact")
+        elif abs(over - DT_MIN) <= 1e-4 * DT_MIN + 8e-16 * abs(te):
+            # t + (t_end - t) was rounded to the float below t_end: `t < t_end` held once more and a step of
+            # dt_min (the loop never steps by less) was appended
+            ctx.hist("adaptive-end", "beyond t_end by one step of dt_min")
+            fail({"call": j, "t_final": r["t"], "overshoot": over}, {"t_final": te},
+                 "adaptive stepping: final time beyond t_end by one extra step of dt_min", SYMPTOM_OVERSHOOT)
+            break
+        else:
+            ctx.hist("adaptive-end", "wrong")
+            fail({"call": j, "t_final": r["t"], "overshoot": over}, {"t_final": te},
                  f"adaptive {case['solver']}: final time not at t_end")
             return fails
-        ctx.hist("adaptive-end", "exact" if over == 0 else "within-dt_min")
-    # global error on autonomous dissipative linear problems
+    # ---- stage times of every rate evaluation (python execution with the recording rate function) ----
+    traces = None
+    if run["calls"] is not None and (case["via"] == "stepper" or len(segs) == 1):
+        ctx.monitor_evals += 1
+        info = {}
+        bad, traces = parse_adaptive_calls(case, run, info)
+        if bad:
+            fail(bad, "stage times of the scheme", f"adaptive {case['solver']}: rate evaluated at wrong stage times")
+            return fails
+        ctx.hist("adaptive-stage-times", "checked")
+        if [sum(1 for x in tr if x[2]) for tr in traces] != cumulative_steps(rsegs):
+            fail({"accepted iterations in the recorded evaluations": [sum(1 for x in tr if x[2]) for tr in traces]},
+                 {"steps": cumulative_steps(rsegs)}, f"adaptive {case['solver']}: reported steps != accepted iterations")
+            return fails
+        for j, rts in enumerate(info.get("rate_times", [])):
+            wrong = [(t, h, x) for t, h, x in rts if not abs(x - (t + h)) <= 1e-9 * h + 1e-13 * max(1.0, abs(t))]
+            if wrong:
+                t, h, x = wrong[0]
+                fail({"call": j, "step_start": t, "dt": h, "rate_of_accepted_state_evaluated_at": x,
+                      "n_steps_affected": len(wrong)}, {"rate_of_accepted_state_evaluated_at": t + h},
+                     "adaptive euler: the rate of an accepted state (reused as first stage of the next step) is "
+                     "evaluated at the time before the step", SYMPTOM_STALE_RATE)
+                break
+    # ---- quadrature identity on u' = g(t) ---------------------------------------------------------
+    if case["flavour"] == "quad" and not case["cplx"]:
+        scale = _scale(case, [r["state"] for r in rsegs])
+        t0 = segs[0][0]
+        if case["solver"] == "runge-kutta":
+            # both embedded formulas integrate a cubic exactly, whatever steps were taken
+            ctx.monitor_evals += 1
+            for j, r in enumerate(rsegs):
+                inc = float(_poly_int(case["b"], t0, r["t"]))
+                exp = [u[0] + inc for u in case["u0"]]
+                dev = max(abs(x[0] - e) for x, e in zip(r["state"], exp))
+                if not dev <= 1e-11 * scale * (1 + r["steps"] / 16):
+                    fail({"call": j, "state": r["state"], "deviation": dev}, {"state": exp},
+                         "adaptive runge-kutta: quadrature identity on u'=g(t)")
+                    break
+        elif traces is not None:
+            ctx.monitor_evals += 1
+            good = _adaptive_quadrature(case, traces, stale=False)
+            old = _adaptive_quadrature(case, traces, stale=True) if case["solver"] == "euler" else None
+            for j, r in enumerate(rsegs):
+                obs = [x[0] for x in r["state"]]
+                tolq = 1e-11 * scale * (1 + r["steps"] / 16)
+                dev = max(abs(x - float(e)) for x, e in zip(obs, good[j]))
+                if not dev <= tolq:
+                    sym = None
+                    what = f"adaptive {case['solver']}: quadrature identity on u'=g(t)"
+                    if old is not None and max(abs(x - float(e)) for x, e in zip(obs, old[j])) <= tolq:
+                        sym = SYMPTOM_STALE_RATE
+                        what = ("adaptive euler: quadrature identity on u'=g(t) (the result is the one with the first "
+                                "stage of every step after the first taken at the start of the previous step)")
+                    fail({"call": j, "state": obs, "deviation": dev}, {"state": [float(e) for e in good[j]]}, what, sym)
+                    break
+    # ---- global error on autonomous dissipative linear problems -------------------------------------
     a = complex(*case["a"])
     if case["flavour"] == "amp" and a.real <= 0:
         ctx.monitor_evals += 1
@@ -1200,27 +1406,148 @@ def monitor_adaptive(ctx, case, mode, run, leg="monitor", dts=None):
             slack = 1e-13 * max(abs(complex(*u)) for u in case["u0"]) + 1e-300
             if not err <= bound * (1 + 1e-9) + slack:
                 # classify the excess: for Runge-Kutta-Fehlberg the acceptance test controls |5th - 4th|, the
-                # returned 4th-order state additionally carries the remainder of the 5th-order value
+                # returned 4th-order state additionally carries the remainder of the 5th-order value; for Euler
+                # step doubling with a complex rate the estimate |z|^2/4 is smaller than the local error by
+                # the factor rho(z) (doubling_ratio)
                 symptom, b5, what = SYMPTOM_GLOBAL, None, "global error exceeds steps*tolerance"
-                if case["solver"] == "runge-kutta" and dts is not None and j < len(dts) and \
-                        sum(len(d) for d in dts[: j + 1]) == r["steps"]:
+                have_dts = dts is not None and j < len(dts) and sum(len(d) for d in dts[: j + 1]) == r["steps"]
+                if case["solver"] == "runge-kutta" and have_dts:
                     b5 = bound + fifth_order_budget(case, dts)[j]
                     if err <= b5 * (1 + 1e-9) + slack:
                         symptom = SYMPTOM_GLOBAL_5TH
                         what = "global error exceeds steps*tolerance (within the 5th-order remainders of the accepted steps)"
                     else:
                         what = "global error exceeds steps*tolerance + 5th-order remainders of the accepted steps"
-                key["symptom"] = symptom
+                elif case["solver"] in ("euler", "richardson") and a.imag != 0:
+                    bud = doubling_budget(case, dts if have_dts else None, rsegs)
+                    if bud is not None:
+                        b5 = bud[j]
+                        if err <= b5 + slack:
+                            symptom = SYMPTOM_GLOBAL_CPLX
+                            what = ("global error exceeds steps*tolerance for a complex rate (within the third-order "
+                                    "remainders of the accepted step-doubling steps)")
+                        else:
+                            what = "global error exceeds steps*tolerance + third-order remainders of the accepted steps"
+                k_extra = {"estimator": "euler-step-doubling"} if symptom == SYMPTOM_GLOBAL_CPLX else {}
+                key.update(k_extra)
                 fail({"call": j, "global_error": err, "steps": r["steps"], "state": r["state"],
                       "ratio_to_bound": err / bound if bound else None},
-                     {"bound_steps_x_tol": bound, "bound_plus_5th_order_remainders": b5,
+                     {"bound_steps_x_tol": bound, "bound_plus_next_order_remainders": b5,
                       "exact": [[e.real, e.imag] for e in exact]},
-                     f"adaptive {case['solver']}: {what}")
-                key.pop("symptom")
+                     f"adaptive {case['solver']}: {what}", symptom)
+                for kk in k_extra:
+                    key.pop(kk)
                 ctx.hist("global-error-excess", symptom)
                 break
             ctx.hist("global-error/bound", "%.0e" % (err / bound) if bound > 0 and err > 0 else "0")
+    if case.get("multistep"):
+        fails += monitor_multistep(ctx, case, mode, run, leg)
     return fails
+
+
+def multistep_adaptive_cases():
+    """adaptive runs with an enormous tolerance on u' = g(t): every step is accepted, so the call consists
+    of two or three accepted steps whose sizes can be read from dt_statistics in every execution mode
+    (also compiled).  They pin the time at which the rate carried from one step to the next is taken."""
+    cases = []
+    for solver in ADAPTIVE_SOLVERS:
+        for b in ([1.0, -2.0, 3.0, 1.0], [0.0, 1.0, 0.0, 0.0]):
+            for h, mult in ((0.25, 2), (0.25, 5), (0.125, 21)):
+                for t0 in (0.0, 0.5):
+                    for via in ("stepper", "solve"):
+                        cases.append({"kind": "adaptive", "solver": solver, "flavour": "quad", "cplx": False,
+                                      "a": [0.0, 0.0], "b": b, "u0": [[1.0, 0.0], [-0.75, 0.0]], "dt": h, "tol": 1e30,
+                                      "impl": "class", "via": via, "segments": [[t0, t0 + mult * h]],
+                                      "multistep": True})
+    return cases
+
+
+def _sizes_from_stats(st, T):
+    """the multiset of at most three accepted step sizes from dt_statistics, as ordered candidates"""
+    import itertools
+
+    n = int(st["count"])
+    if n == 1:
+        sizes = [st["mean"]]
+    elif n == 2:
+        sizes = [st["min"], st["max"]]
+    elif n == 3:
+        sizes = [st["min"], 3 * st["mean"] - st["min"] - st["max"], st["max"]]
+    else:
+        return None
+    if not abs(sum(sizes) - T) <= 1e-12 * max(1.0, abs(T)) or not all(x > 0 for x in sizes):
+        return None
+    return sorted(set(itertools.permutations(sizes)))
+
+
+def monitor_multistep(ctx, case, mode, run, leg="monitor"):
+    """quadrature identity of a call of several accepted steps, from observables that exist in every
+    execution mode (final state, steps, dt_statistics)"""
+    ctx.monitor_evals += 1
+    key = {"solver": case["solver"], "backend": "numpy" if mode == "numpy" else "numba", "stepping": "adaptive"}
+    rec = {"case": case, "mode": mode}
+    if run["error"] is not None or not run["segments"]:
+        ctx.monitor_fail(leg, rec, {"error": run["error"]}, "a result",
+                         f"adaptive {case['solver']}: exception", key=key)
+        return 1
+    r = run["segments"][0]
+    ts, te = case["segments"][0]
+    obs = [x[0] for x in r["state"]]
+    scale = _scale(case, [r["state"]])
+    tolq = 1e-12 * scale
+    what = f"adaptive {case['solver']}: quadrature identity on u'=g(t) over a call of several accepted steps"
+    if case["solver"] == "runge-kutta":
+        inc = float(_poly_int(case["b"], ts, r["t"]))
+        exp = [u[0] + inc for u in case["u0"]]
+        if not max(abs(x - e) for x, e in zip(obs, exp)) <= tolq:
+            ctx.monitor_fail(leg, rec, {"state": obs, "steps": r["steps"]}, {"state": exp}, what, key=key)
+            return 1
+        return 0
+    cands = _sizes_from_stats(r.get("dt_stats") or {"count": 0}, r["t"] - ts)
+    if cands is None or r["steps"] != len(cands[0]):
+        ctx.hist("multistep-adaptive", "step sizes not reconstructible from dt_statistics")
+        ctx.monitor_fail(leg, rec, {"steps": r["steps"], "dt_statistics": r.get("dt_stats"), "t_final": r["t"]},
+                         "at most three accepted steps that add up to the requested interval",
+                         f"adaptive {case['solver']}: accepted steps with an enormous tolerance do not cover the interval",
+                         key=key)
+        return 1
+    best, stale_hit = None, False
+    for sizes in cands:
+        tr, t = [], ts
+        for h in sizes:
+            tr.append([t, h, True])
+            t = t + h
+        good = _adaptive_quadrature(case, [tr], stale=False)[0]
+        dev = max(abs(x - float(e)) for x, e in zip(obs, good))
+        if best is None or dev < best[0]:
+            best = (dev, [float(e) for e in good], list(sizes))
+        old = _adaptive_quadrature(case, [tr], stale=True)[0]
+        if max(abs(x - float(e)) for x, e in zip(obs, old)) <= tolq:
+            stale_hit = True
+    ctx.hist("multistep-adaptive", f"{r['steps']} steps")
+    if not best[0] <= tolq:
+        if stale_hit and case["solver"] == "euler":
+            key["symptom"] = SYMPTOM_STALE_RATE
+            what = ("adaptive euler: quadrature identity on u'=g(t) over a call of several accepted steps (the result "
+                    "is the one with the first stage of every step after the first taken at the start of the previous step)")
+        ctx.monitor_fail(leg, rec, {"state": obs, "steps": r["steps"], "deviation": best[0]},
+                         {"state": best[1], "accepted_step_sizes": best[2]}, what, key=key)
+        return 1
+    return 0
+
+
+def monitor_malformed(ctx, case, mode, run, leg="monitor"):
+    """malformed stream (dt = 0): an exception, never a result and never a run that does not come back"""
+    ctx.monitor_evals += 1
+    key = {"solver": case["solver"], "backend": "numpy" if mode == "numpy" else "numba", "input": case["malformed"]}
+    err = run["error"]
+    ctx.hist("malformed outcome", err["type"] if err else "result")
+    if err is None or err["type"] == "TimeoutError":
+        ctx.monitor_fail(leg, {"case": case, "mode": mode}, {"error": err, "segments": run["segments"]},
+                         "an exception (the step count is undefined)",
+                         f"{case['solver']}: step size 0 accepted", key=key)
+        return 1
+    return 0
 
 
 def monitor_scipy(ctx, case, mode, run, leg="monitor"):
@@ -1292,6 +1619,31 @@ CORPUS = [
     {"kind": "adaptive", "solver": "runge-kutta", "flavour": "amp", "cplx": False, "a": [-1.3, 0.0],
      "b": [0.0, 0.0, 0.0, 0.0], "u0": [[1.0, 0.0]], "dt": 1.0, "tol": 1e-2, "impl": "class", "via": "stepper",
      "segments": [[0.0, 1.0]], "corpus": "rkf45-estimate-is-not-a-bound/2"},
+    # adaptive Euler on u' = t, two accepted steps of 0.25: 0.0625 instead of 0.09375 (the rate reused by the
+    # second step is evaluated at t=0 instead of t=0.25); runs on every execution mode incl. compiled
+    {"kind": "adaptive", "solver": "euler", "flavour": "quad", "cplx": False, "a": [0.0, 0.0],
+     "b": [0.0, 1.0, 0.0, 0.0], "u0": [[0.0, 0.0]], "dt": 0.25, "tol": 1e30, "impl": "class", "via": "solve",
+     "segments": [[0.0, 0.5]], "multistep": True, "corpus": "adaptive-euler-rate-at-old-time/1"},
+    {"kind": "adaptive", "solver": "euler", "flavour": "quad", "cplx": False, "a": [0.0, 0.0],
+     "b": [1.0, -2.0, 3.0, 1.0], "u0": [[1.0, 0.0], [-0.75, 0.0]], "dt": 0.125, "tol": 1e30, "impl": "class",
+     "via": "stepper", "segments": [[0.5, 3.125]], "multistep": True, "corpus": "adaptive-euler-rate-at-old-time/2"},
+    # the same two calls for the generic loop with the step-doubling estimate (no carried rate: must hold)
+    {"kind": "adaptive", "solver": "richardson", "flavour": "quad", "cplx": False, "a": [0.0, 0.0],
+     "b": [1.0, -2.0, 3.0, 1.0], "u0": [[1.0, 0.0], [-0.75, 0.0]], "dt": 0.125, "tol": 1e30, "impl": "class",
+     "via": "stepper", "segments": [[0.5, 3.125]], "multistep": True, "corpus": "adaptive-multistep-quadrature/richardson"},
+    # an adaptive call that misses t_end: fl(t + fl(t_end - t)) < t_end after four steps, a fifth step of dt_min
+    # follows and the call returns 1.7000000000999997
+    {"kind": "adaptive", "solver": "richardson", "flavour": "amp", "cplx": False, "a": [-0.5, 0.0],
+     "b": [0.0, 0.0, 0.0, 0.0], "u0": [[1.0, 0.0]], "dt": 0.02, "tol": 1e30, "impl": "class", "via": "solve",
+     "segments": [[0.0, 1.7]], "corpus": "adaptive-end-beyond-t_end/1"},
+    # Euler step doubling with a complex rate, Re a < 0: one accepted step (estimate |z|^2/4 = 0.062515 <= tol)
+    # whose error 0.06306 exceeds 1 x tolerance
+    {"kind": "adaptive", "solver": "euler", "flavour": "amp", "cplx": True, "a": [-0.015625, 1.0],
+     "b": [0.0, 0.0, 0.0, 0.0], "u0": [[1.0, 0.0]], "dt": 0.5, "tol": 0.0626, "impl": "class", "via": "stepper",
+     "segments": [[0.0, 0.5]], "corpus": "step-doubling-estimate-is-not-a-bound-for-complex-rates/euler"},
+    {"kind": "adaptive", "solver": "richardson", "flavour": "amp", "cplx": True, "a": [-0.015625, 1.0],
+     "b": [0.0, 0.0, 0.0, 0.0], "u0": [[1.0, 0.0]], "dt": 0.5, "tol": 0.0626, "impl": "class", "via": "solve",
+     "segments": [[0.0, 0.5]], "corpus": "step-doubling-estimate-is-not-a-bound-for-complex-rates/richardson"},
 ]
 
 
@@ -1315,6 +1667,16 @@ def generate(ctx):
         tasks.append({"case": gen_adaptive(rng, solver, ctx.hist), "modes": ["numpy", "nojit"], "aux": {}})
     for i in range(n_scipy):
         tasks.append({"case": gen_scipy(rng, ctx.hist), "modes": ["numpy", "nojit"], "aux": {}})
+    # malformed stream: a vanishing step size.  Expected outcome: an exception before any step is taken
+    # (the step count divides by dt), the state untouched.  The model is total (x/0 = 0) and is not
+    # consulted here: its theorems speak about dt > 0 only where they say so.
+    for solver in FIXED_SOLVERS:
+        for via in ("stepper", "solve"):
+            a, b, u0 = gen_equation(rng, "general", False, ctx.hist)
+            tasks.append({"case": {"kind": "malformed", "solver": solver, "flavour": "general", "cplx": False, "a": a,
+                                   "b": b, "u0": u0, "dt": 0.0, "impl": "class", "via": via, "maxiter": 100,
+                                   "maxerror": 1e-4, "alpha": 0.0, "segments": [[0.0, 1.0]], "malformed": "dt=0"},
+                          "modes": ["numpy", "nojit"], "aux": {}})
     # JIT subset: stratified over solvers
     def pick(kind, n, names):
         per = {s: [t for t in tasks if t["case"]["kind"] == kind and t["case"]["solver"] == s] for s in names}
@@ -1448,6 +1810,8 @@ def evaluate(ctx, tasks, runs, answers, index):
         modes = [m for m in ("numpy", "nojit", "jit") if m in rr]
         for m in modes:
             ctx.hist("mode", m)
+        if "jit" in modes:
+            ctx.hist("jit leg: solver x flavour", f"{leg}/{case['flavour']}" + ("/complex" if case["cplx"] else ""))
         if kind == "fixed":
             for m in modes:
                 key = (tid, "numba" if (m != "numpy" and case["solver"] == "adams-bashforth") else "numpy")
@@ -1499,6 +1863,10 @@ def evaluate(ctx, tasks, runs, answers, index):
                         mval = val
                         agrees = bool(compare_adaptive(ctx, case, m, rr[m], val, "correspondence:" + leg))
                 monitor_adaptive(ctx, case, m, rr[m], dts=accepted_dts(case, rr[m], mval, agrees))
+        elif kind == "malformed":
+            for m in modes:
+                monitor_malformed(ctx, case, m, rr[m])
+            continue
         else:
             for m in modes:
                 monitor_scipy(ctx, case, m, rr[m])
@@ -1598,7 +1966,7 @@ def monitor_onestep(ctx, case, mode, run, leg="monitor"):
     exp = [float(x) for x in expected_onestep(case)]
     obs = [x[0] for x in run["segments"][0]["state"]]
     scale = max([abs(x) for x in exp] + [1.0])
-    if max(abs(x - y) for x, y in zip(exp, obs)) > 1e-12 * scale:
+    if not max(abs(x - y) for x, y in zip(exp, obs)) <= 1e-12 * scale:
         what = ("amplification factor of the error-estimating step on u'=a*u" if case["flavour"] == "amp"
                 else "quadrature identity of the error-estimating step on u'=g(t)")
         ctx.monitor_fail(leg, rec, {"state": obs}, {"state": exp}, f"adaptive {case['solver']}: {what}", key=key)
@@ -1627,7 +1995,7 @@ def _exec_local(case, mode="numpy", segments=None):
     return exec_case(t)
 
 
-def monitor_estimate(ctx, case, mode, leg="monitor"):
+def monitor_estimate(ctx, case, mode, leg="monitor", run=None):
     """error estimate of one step on u' = a u, read back from the step-size controller:
     after an accepted first step with error_rel in (small, 1) the next step is
     dt * 0.9 * error_rel**-0.2"""
@@ -1635,7 +2003,8 @@ def monitor_estimate(ctx, case, mode, leg="monitor"):
     key = {"solver": case["solver"], "backend": "numpy" if mode == "numpy" else "numba", "stepping": "adaptive"}
     h = case["dt"]
     # a call that needs two steps: the first one (size h) is followed by an adjustment
-    run = _exec_local(case, mode, segments=[[0.0, 2.5 * h]])
+    if run is None:
+        run = _exec_local(case, mode, segments=[[0.0, 2.5 * h]])
     rec = {"case": dict(case, segments=[[0.0, 2.5 * h]]), "mode": mode}
     if run["error"] is not None or not run["calls"]:
         ctx.monitor_fail(leg, rec, run["error"], "a result", f"adaptive {case['solver']}: exception", key=key)
@@ -1647,7 +2016,7 @@ def monitor_estimate(ctx, case, mode, leg="monitor"):
         return 1
     h2 = traces[0][1][1]
     err_rel = (h2 / (0.9 * h)) ** -5
-    if abs(err_rel - 0.3) > 1e-6:
+    if not abs(err_rel - 0.3) <= 1e-6:
         z = case["a"][0] * h
         ctx.monitor_fail(leg, rec, {"second_step": h2, "error_rel_read_back": err_rel, "error": err_rel * case["tol"]},
                          {"error_rel": 0.3, "error": 0.3 * case["tol"], "z": z},
@@ -1673,6 +2042,9 @@ def targeted_monitors(ctx):
     for case in estimate_cases():
         for mode in modes:
             fails += monitor_estimate(ctx, case, mode)
+    for case in multistep_adaptive_cases():
+        for mode in modes:
+            fails += monitor_adaptive(ctx, case, mode, _exec_local(case, mode))
     return fails
 
 
@@ -1724,48 +2096,86 @@ def search(ctx, broken):
     return sorted(found, key=lambda d: len(str(d["case"])))
 
 
+# monitor failures after which the monitor of a case stops: the checks behind them were not evaluated
+PREEMPTING = ("exception", "number of steps !=", "returned time !=", "rate evaluated at wrong stage times",
+              "final time not at t_end", "reported steps != accepted iterations", "do not cover the interval",
+              "single step with huge tolerance", "first step not accepted")
+
+
 def replay(ctx, rep):
+    """Re-runs the recorded case in the recorded execution mode (numpy backend / source of the numba
+    loops with NUMBA_DISABLE_JIT=1 / compiled numba loops in an interpreter with the JIT enabled; the
+    numpy run is added as the reference of the backend-agreement monitor) and judges the recorded
+    symptom: False iff the monitor failure of the file (`what`) occurs again, or a failure occurs that
+    stops the monitor before the recorded check."""
+    from harness.common.context import Ctx
     from harness.common.isolated import run_one
 
-    res = run_one("harness.c06", "replay_worker", rep, env={"NUMBA_DISABLE_JIT": "1", "PYTHONWARNINGS": "ignore"})
-    if isinstance(res, str):
-        print(res)
+    rec = rep.get("case")
+    if not isinstance(rec, dict) or "case" not in rec:
+        print("this replay file records no case (broken model/code tie or generated proof obligation without a "
+              "failing input): nothing to re-run on the real code -> counted as still failing; re-run ./check C06")
         return False
-    for l in res["log"]:
-        print(l)
-    return res["ok"]
-
-
-def replay_worker(rep):
-    from harness.common.context import Ctx
-
-    c = Ctx(PID, "quick", 0, os.environ.get("VERIF_WORKDIR", "."))
-    case = rep["case"]["case"]
-    mode = rep["case"].get("mode", "numpy")
-    log = []
+    case, mode = rec["case"], rec.get("mode", "numpy")
+    what = rep.get("what")
+    base_env = {"NUMBA_NUM_THREADS": "1", "OMP_NUM_THREADS": "1", "PYTHONWARNINGS": "ignore"}
+    runs, aux, est = {}, {}, {}
+    plan = [(["numpy"] + (["nojit"] if mode == "nojit" else []), dict(base_env, NUMBA_DISABLE_JIT="1"))]
     if mode == "jit":
-        log.append("(compiled run replayed on the source of the numba loops and on the numpy backend)")
-    modes = ["numpy"] if mode == "numpy" else ["numpy", "nojit"]
-    runs = {}
-    for m in modes:
-        if case.get("estimate"):
-            monitor_estimate(c, case, m)
-            continue
-        run = _exec_local(case, m)
-        runs[m] = run
-        log.append(f"{m}: {run['segments']} error={run['error']}")
+        plan.append((["jit"], dict(base_env, NUMBA_DISABLE_JIT="0")))
+    for modes, env in plan:
+        res = run_one("harness.c06", "replay_worker", {"case": case, "modes": modes}, env=env)
+        if isinstance(res, str):
+            print("the recorded case could not be executed:\n" + res[-1500:])
+            return False
+        runs.update(res["runs"])
+        aux.update(res["aux"])
+        est.update(res["estimate"])
+    c = Ctx(PID, "quick", 0, ctx.workdir)
+    print(f"recorded: mode={mode} what={what!r}")
+    if case.get("estimate"):
+        monitor_estimate(c, case, mode, run=est[mode])
+    else:
+        run = runs[mode]
+        print(f"{mode}: {run['segments']} error={run['error']}")
         if case.get("onestep"):
-            monitor_onestep(c, case, m, run)
+            monitor_onestep(c, case, mode, run)
         elif case["kind"] == "fixed":
-            aux = {tag: {"case": a["case"], "run": _exec_local(a["case"], m)} for tag, a in aux_cases(case).items()}
-            monitor_fixed(c, case, m, run, aux)
+            monitor_fixed(c, case, mode, run, aux.get(mode, {}))
         elif case["kind"] == "adaptive":
-            monitor_adaptive(c, case, m, run, dts=accepted_dts(case, run))
+            monitor_adaptive(c, case, mode, run, dts=accepted_dts(case, run))
+        elif case["kind"] == "malformed":
+            monitor_malformed(c, case, mode, run)
         else:
-            monitor_scipy(c, case, m, run)
-    monitor_agreement(c, case, runs)
-    for mf in c.monitor_failures:
-        log.append(f"monitor fails: {mf['what']}: observed {mf['observed']} expected {mf['expected']}")
-    if not c.monitor_failures:
-        log.append("monitors hold")
-    return {"ok": not c.monitor_failures, "log": log}
+            monitor_scipy(c, case, mode, run)
+        if mode != "numpy" and case["kind"] != "malformed":
+            monitor_agreement(c, case, {"numpy": runs["numpy"], mode: run})
+    same = [mf for mf in c.monitor_failures if what is None or mf["what"] == what]
+    other = [mf for mf in c.monitor_failures if mf not in same]
+    stops = [mf for mf in other if any(p in mf["what"] for p in PREEMPTING)]
+    for mf in same:
+        print(f"recorded symptom occurs again: {mf['what']}: observed {mf['observed']} expected {mf['expected']}")
+    for mf in stops:
+        print(f"the monitor stops before the recorded check: {mf['what']}: observed {mf['observed']} "
+              f"expected {mf['expected']}")
+    for mf in other:
+        if mf not in stops:
+            print(f"(another monitor failure of this case, not the recorded symptom: {mf['what']})")
+    if not same and not stops:
+        print("the recorded symptom does not occur")
+    return not same and not stops
+
+
+def replay_worker(arg):
+    """executes the case (and what its monitors need besides) in the given modes of this interpreter"""
+    case = arg["case"]
+    out = {"runs": {}, "aux": {}, "estimate": {}}
+    for m in arg["modes"]:
+        if case.get("estimate"):
+            out["estimate"][m] = _exec_local(case, m, segments=[[0.0, 2.5 * case["dt"]]])
+            continue
+        out["runs"][m] = _exec_local(case, m)
+        if case["kind"] == "fixed":
+            out["aux"][m] = {tag: {"case": a["case"], "run": _exec_local(a["case"], m)}
+                             for tag, a in aux_cases(case).items() if m in a["modes"]}
+    return out
